@@ -44,6 +44,7 @@ BOUNDS = {"hours_per_series": "N=2", "skeletons": "T1, T5 (quick: every input re
           "(class, parameter, alternative unit) one at a time", "durations": "request_duration<=2h, step time<2h, "
           "storage duration<=3h so that ceil/floor stay in 0..3", "units": {k: [a for a, _ in v] for k, v in ALT.items()},
           "mixed units": "one job re-expressed while another job on the same server/network/storage keeps its unit, series over different hours (T4 long steps, T3, T7)",
+          "builder classes": "10 inputs of the video streaming / web application / generative AI services, their jobs and the GPU server, one at a time",
           "edits": "T1: 8 inputs re-assigned on the computed system with the same magnitude in another unit"}
 ASSUMPTIONS = ["alternative unit magnitudes are the exact rational multiples of the default-unit magnitudes",
                "cpu_core/gpu (custom units) have no alternative spelling and are not re-expressed",
@@ -145,7 +146,40 @@ def h_units_edit(ctx, skeleton, n, slot, alt, args=None):
     V.compare_systems(ctx, A, B, f"{slot} re-assigned as the same number of {alt_unit}: live = fresh")
 
 
-HARNESSES = {"units": h_units, "units_edit": h_units_edit}
+BUILDER_SLOTS = [  # kind, choice, slot, default, alternative unit, exact factor (magnitude_alt = magnitude_default * factor), range
+    ("video", "1080p (1920 x 1080)", "svc.base_ram_consumption", 2, "MB", F(1000), (0, 64, (1, 8))),
+    ("video", "720p (1280 x 720)", "svc.ram_buffer_per_user", 50, "GB", F(1, 1000), (0, 10 ** 4, (10, 100))),
+    ("video", "4K (3840 x 2160)", "sjob.video_duration", 1800, "min", F(1, 60), (0, 7200, (60, 7000))),
+    ("video", "480p (640 x 480)", "sjob.refresh_rate", 30, "1/min", F(60), (0, 240, (24, 60))),
+    ("video", "1080p (1920 x 1080)", "svc.static_delivery_cpu_cost", 4, "cpu_core/(MB/s)", F(1, 1000), (0, 100, (1, 8))),
+    ("video", "1080p (1920 x 1080)", "sjob.data_stored", 0, "kB", F(1000), (0, 10 ** 4, (1, 10))),
+    ("web", ["php-symfony", "default"], "sjob.data_transferred", 2.25, "kB", F(1000), (0, 10 ** 4, (1, 10))),
+    ("web", ["go-pgx", "default"], "sjob.data_stored", 100, "MB", F(1, 1000), (0, 10 ** 6, (1, 500))),
+    ("genai", ["mistralai", "open-mistral-7b"], "srv.ram_per_gpu", 80, "MB/gpu", F(1000), (1, 1000, (40, 160))),
+    ("genai", ["mistralai", "open-mistral-7b"], "svc.gpu_latency_beta", 0.0223, "ms", F(1000), (0, 1, (0.01, 0.05))),
+]
+
+
+def h_units_builders(ctx, index):
+    """an input of a builder class (service, service job, GPU server) given in another unit"""
+    from harness import c17
+    kind, choice, slot, default, alt_unit, factor, (lo, hi, nice) = BUILDER_SLOTS[index]
+    sym = c17.sym_for(kind)
+    sym[slot] = dict(lo=lo, hi=hi, lo_strict=True, nice=nice)
+    envA = M.Env(ctx, symbolic=sym)
+    x = envA.get(slot, default)
+    envB = envA.child(values={slot: x * factor}, units={slot: alt_unit})
+    A, _ = c17.build_pair(ctx, envA, kind, choice, mixed=(kind != "genai"))
+    if kind == "genai":
+        ctx.assume(V.quantity_base(A["sjob"].request_duration.value)[1] <= 7200)
+    B, _ = c17.build_pair(ctx, envB, kind, choice, mixed=(kind != "genai"))
+    V.observe_system(ctx, A, "A.")
+    V.observe_system(ctx, B, "B.")
+    V.compare_systems(ctx, B, A, f"{kind}: {slot} given in {alt_unit} = default unit",
+                      names={"srv", "st", "net", "up", "system", "sjob", "svc"})
+
+
+HARNESSES = {"units": h_units, "units_edit": h_units_edit, "units_builders": h_units_builders}
 
 
 def plan(tier, seed):
@@ -168,6 +202,8 @@ def plan(tier, seed):
     for slot, alt in (("job.data_transferred", 0), ("job.ram_needed", 0), ("st.storage_capacity", 0), ("dev.lifespan", 0),
                       ("srv.ram", 1), ("fr.average_carbon_intensity", 1), ("dev.power", 0), ("job.data_stored", 1)):
         p.append(("units_edit", dict(skeleton="T1", n=2, slot=slot, alt=alt)))
+    for i in range(len(BUILDER_SLOTS)):
+        p.append(("units_builders", dict(index=i)))
     # one at a time
     import random
     rnd = random.Random(seed)
